@@ -227,6 +227,28 @@ def check_history(tkey, hist):
     if d or now[1] != o2[1]:
         vs.append(C.viol("original-changed-by-clone", key("original", C.first_diff_key(d) or "bytes"),
                          {"diff": S.diff_text(d)}, case))
+    # direction 3: two objects LOADED from the same bytes (a parse cache must not make them share state)
+    A3 = deviate.new_module(tkey)
+    data = C.save(rv.Synth(A3))
+    L1 = C.load_bytes(data).module
+    L2 = C.load_bytes(data).module
+    L3 = L1.clone()
+    o_l2, o_l3 = observe_module(L2), observe_module(L3)
+    try:
+        for op in hist:
+            apply_inplace(L1, op)
+        for origin, X, o in (("loaded-twice", L2, o_l2), ("clone-of-loaded", L3, o_l3)):
+            now = observe_module(X)
+            d = S.diff(o[0], now[0])
+            if d or now[1] != o[1]:
+                vs.append(C.viol("other-object-changed", key(origin, C.first_diff_key(d) or "bytes"),
+                                 {"diff": S.diff_text(d)}, case))
+        L4 = C.load_bytes(data).module
+        now = observe_module(L4)
+        if S.diff(o_l2[0], now[0]) or now[1] != o_l2[1]:
+            vs.append(C.viol("later-load-of-same-bytes-differs", key("loaded-after", "snapshot"), {}, case))
+    except Exception:
+        pass
     if registry_digest() != reg0:
         vs.append(C.viol("class-registry-or-flag-changed", key("global", "registry"), {}, case))
     return vs, "ok"
